@@ -46,7 +46,39 @@ type c04Log struct {
 	ev     int
 	writes []*c04Write
 	dumps  []*c04Dump
+	drops  []*c04Drop
 	notes  []string
+}
+
+// c04Drop is one DropMeasurement call of a scenario thread (logical event numbers; End = 0 while in flight).
+type c04Drop struct {
+	Mst        string
+	Start, End int
+	Err        string
+}
+
+func (l *c04Log) drop(v *vShard, mst string) {
+	d := &c04Drop{Mst: mst, Start: l.tick()}
+	l.mu.Lock()
+	l.drops = append(l.drops, d)
+	l.mu.Unlock()
+	if err := v.sh.DropMeasurement(context.Background(), mst); err != nil {
+		d.Err = err.Error()
+	}
+	d.End = l.tick()
+}
+
+// dropStartedBefore: some drop of measurement mst began before logical time at. From that moment on the
+// statement allows rows of that measurement to be absent ("never see a point disappear" speaks of points that
+// were not dropped), so the oracle stops demanding presence and monotonicity; it keeps demanding that whatever
+// IS returned was written (no invented, torn or superseded value, no duplicate).
+func (l *c04Log) dropStartedBefore(mst string, at int) bool {
+	for _, d := range l.drops {
+		if d.Mst == mst && d.Start < at {
+			return true
+		}
+	}
+	return false
 }
 
 func (l *c04Log) tick() int {
@@ -154,7 +186,7 @@ func (l *c04Log) check(closing bool) []string {
 					}
 				}
 				if !present {
-					if must && !closing {
+					if must && !closing && !l.dropStartedBefore(k.Mst, d.End) {
 						bad = append(bad, fmt.Sprintf("dump %d [%d,%d]: %v.%s missing although acknowledged before the dump started", di, d.Start, d.End, k, n))
 					}
 					continue
@@ -190,7 +222,7 @@ func (l *c04Log) check(closing bool) []string {
 		// monotonic reads of one client
 		if !closing && di > 0 && l.dumps[di-1].Err == "" && l.dumps[di-1].End != 0 {
 			for k := range l.dumps[di-1].Got {
-				if _, still := d.Got[k]; !still {
+				if _, still := d.Got[k]; !still && !l.dropStartedBefore(k.Mst, d.End) {
 					bad = append(bad, fmt.Sprintf("dump %d: row %v seen by the previous dump disappeared", di, k))
 				}
 			}
@@ -209,6 +241,9 @@ type c04Scenario struct {
 	Preload []string // ops applied serially before the concurrent phase (write ids 1..)
 	Threads func(v *vShard, l *c04Log) map[string]func()
 	Closing bool
+	// Setup runs after the preload and before the threads are created; the function it returns runs right after
+	// the concurrent phase (before the final dump and Close).
+	Setup func(v *vShard) func()
 }
 
 func c04Gen(name string, id int) []vPoint { return vWriteMenu[vWriteIndex(name)].Gen(id) }
@@ -317,6 +352,18 @@ func c04Body(sc c04Scenario, baseDir string, x *sched.Exec) (kind, detail string
 			l.preload(i+1, vWriteMenu[wi].Gen(i+1))
 		}
 	}
+	teardown := func() {}
+	if sc.Setup != nil {
+		td := sc.Setup(v)
+		done := false
+		teardown = func() {
+			if !done {
+				done = true
+				td()
+			}
+		}
+	}
+	defer teardown()
 	ths := sc.Threads(v, l)
 	names := make([]string, 0, len(ths))
 	for n := range ths {
@@ -328,6 +375,7 @@ func c04Body(sc c04Scenario, baseDir string, x *sched.Exec) (kind, detail string
 	}
 	x.Adopt(c04FileGC, "filegc")
 	x.Run()
+	teardown()
 	c04Progress.Add(1)
 	if len(x.Panics) > 0 {
 		return "panic_in_concurrent_phase", x.Panics[0], true
@@ -609,12 +657,17 @@ func TestVerifC04Race(t *testing.T) {
 					l.preload(i+1, vWriteMenu[wi].Gen(i+1))
 				}
 			}
+			teardown := func() {}
+			if sc.Setup != nil {
+				teardown = sc.Setup(v)
+			}
 			var wg sync.WaitGroup
 			for _, fn := range sc.Threads(v, l) {
 				wg.Add(1)
 				go func(f func()) { defer wg.Done(); f() }(fn)
 			}
 			wg.Wait()
+			teardown()
 			rep.Eval(1)
 			rep.Count("race_pass_executions", 1)
 			if bad := l.check(sc.Closing); len(bad) > 0 {
